@@ -9,7 +9,13 @@
 #define psf_log_printf(...)		verif_nolog ()
 #define memcpy(d, s, n)		verif_memcpy ((d), (s), (n))
 void * verif_memcpy (void *dst, const void *src, size_t n) ;
-#ifdef LAYOUT_MS
+#ifdef LAYOUT_GSM
+#include "gsm610.c"
+#include <stddef.h>
+#define IMA_ADPCM_PRIVATE	GSM610_PRIVATE		/* mono; the sample buffer is a member array */
+#define ima_write_block		gsm610_write_block
+#define RET_T				int
+#elif defined (LAYOUT_MS)
 #include "ms_adpcm.c"
 #define IMA_ADPCM_PRIVATE	MSADPCM_PRIVATE
 #define ima_write_block		msadpcm_write_block
@@ -38,9 +44,17 @@ void * verif_memcpy (void *dst, const void *src, size_t n)
 {	if (n > 0)
 	{	__CPROVER_assert (__CPROVER_r_ok (src, n) && __CPROVER_w_ok (dst, n), "memcpy: both ranges inside their buffers") ; /*@C05.staging_copy_stays_inside_both_buffers*/
 		__CPROVER_assert ((long) __CPROVER_POINTER_OFFSET (src) == g_consumed * 2, "each chunk is taken from where the previous one ended in the caller's buffer") ; /*@C07.chunks_are_consecutive_in_the_callers_buffer*/ /*@C01.chunks_are_consecutive_in_the_callers_buffer*/
+#ifdef LAYOUT_GSM
+		__CPROVER_assert (__CPROVER_same_object (dst, g_pima) && (long) __CPROVER_POINTER_OFFSET (dst) == (long) offsetof (GSM610_PRIVATE, samples) + (long) g_pima->samplecount * 2,
+#else
 		__CPROVER_assert (__CPROVER_same_object (dst, g_pima->samples) && (long) __CPROVER_POINTER_OFFSET (dst) == (long) g_pima->samplecount * CH * 2,
+#endif
 			"each chunk is staged where the previous one (or the previous call) ended in the block buffer") ; /*@C07.chunks_are_consecutive_in_the_block_buffer*/ /*@C01.chunks_are_consecutive_in_the_block_buffer*/
+#ifdef LAYOUT_GSM
+		__CPROVER_havoc_slice (g_pima->samples, sizeof (g_pima->samples)) ;		/* the buffer is a member of the private block: the whole member array, nothing else */
+#else
 		__CPROVER_havoc_object (dst) ;
+#endif
 		g_consumed += (long) (n / 2) ;
 		} ;
 	return dst ;
@@ -54,13 +68,22 @@ __CPROVER_ensures (pima->samplecount == 0 && g_enc_calls == __CPROVER_old (g_enc
 ;
 
 static RET_T ima_write_block (SF_PRIVATE *psf, IMA_ADPCM_PRIVATE *pima, const short *ptr, int len)
+#ifdef LAYOUT_GSM
+__CPROVER_requires (__CPROVER_is_fresh (psf, sizeof (SF_PRIVATE)) && __CPROVER_is_fresh (pima, sizeof (IMA_ADPCM_PRIVATE)))
+__CPROVER_requires (pima->samplesperblock == SPB && 0 <= pima->samplecount && pima->samplecount < SPB && pima->samplecount == vin_sc && pima == g_pima)
+#else
 __CPROVER_requires (__CPROVER_is_fresh (psf, sizeof (SF_PRIVATE)) && __CPROVER_is_fresh (pima, sizeof (IMA_ADPCM_PRIVATE)) && __CPROVER_is_fresh (pima->samples, SPB * CH * 2))
 __CPROVER_requires (pima->channels == CH && pima->samplesperblock == SPB && 0 <= pima->samplecount && pima->samplecount < SPB && pima->samplecount == vin_sc && pima == g_pima)
+#endif
 #ifndef LAYOUT_MS
 __CPROVER_requires (__CPROVER_obeys_contract (pima->encode_block, encode_block_c))
 #endif
 __CPROVER_requires (0 < len && len <= LEN_MAX && len % CH == 0 && len == vin_len && __CPROVER_is_fresh (ptr, (size_t) len * 2) && g_consumed == 0 && g_enc_calls == 0)
+#ifdef LAYOUT_GSM
+__CPROVER_assigns (pima->samplecount, pima->blockcount, g_enc_calls, g_consumed, psf->error, __CPROVER_object_upto ((char *) pima->samples, 640))
+#else
 __CPROVER_assigns (pima->samplecount, pima->blockcount, g_enc_calls, g_consumed, psf->error, __CPROVER_object_whole (pima->samples))
+#endif
 __CPROVER_ensures (__CPROVER_return_value == vin_len && g_consumed == vin_len) /*@C05.every_item_consumed*/ /*@C01.every_item_consumed*/
 __CPROVER_ensures (pima->samplecount < SPB && (long) pima->samplecount * CH == (long) vin_sc * CH + vin_len - (long) g_enc_calls * SPB * CH) /*@C07.carry_over_is_the_unfinished_block*/ /*@C01.carry_over_is_the_unfinished_block*/
 ;
